@@ -20,6 +20,7 @@ var (
 	c14pDeferred = sim.RegStat("probe:c14-op-deferred-at-the-bound")
 	c14pDepthMax = sim.RegStat("probe:c14-depth-reached-limit+1")
 	c14pCross    = sim.RegStat("probe:c14-chain-hopped-between-objects")
+	c14pAll      = sim.RegStat("probe:c14-readall-or-writeall-in-the-chain")
 )
 
 type c14 struct {
@@ -62,13 +63,19 @@ func (d *c14) hop(op *lOp) *lObj {
 
 func (d *c14) startOn(o *lObj) bool {
 	w := d.w
+	// on streams a third of the operations are the *All variants: with short reads and writes in the kernel they are
+	// completed inline by their second or later system call, which must count like any other inline completion
+	all := o.kind.stream() && w.Chance(1, 3)
+	if all {
+		w.Stat(c14pAll)
+	}
 	switch {
 	case d.canRead(o) && (o.kind == lkFifoR || o.kind == lkRegular || o.kind == lkListener || w.Chance(2, 3)):
-		d.startRead(o, false, 16, 1)
+		d.startRead(o, all, 16, 1)
 	case d.canWrite(o):
-		d.startWrite(o, false, 16, 1)
+		d.startWrite(o, all, 16, 1)
 	case d.canRead(o):
-		d.startRead(o, false, 16, 1)
+		d.startRead(o, all, 16, 1)
 	default:
 		return false
 	}
@@ -98,7 +105,7 @@ func (d *c14) behave(s *loop, op *lOp) {
 	if op.err != nil {
 		c.Failf("unexpected-error/"+op.obj.kind.String()+"/"+lOpNames[op.kind], "operation %d (%s on %s) failed with %v although the object was immediately completable", op.id, lOpNames[op.kind], op.obj.kind, op.err)
 	}
-	if op.kind == opRead && op.obj.kind != lkListener {
+	if (op.kind == opRead || op.kind == opReadAll) && op.obj.kind != lkListener {
 		for i := 0; i < op.n; i++ {
 			if want := d.g(d.inStream(op.obj), op.obj.inOff-int64(op.n)+int64(i)); op.buf[i] != want {
 				c.Failf("chain-read-data-mismatch/"+op.obj.kind.String(), "operation %d read %#x at stream offset %d, expected %#x", op.id, op.buf[i], op.obj.inOff-int64(op.n)+int64(i), want)
@@ -122,7 +129,7 @@ func (d *c14) behave(s *loop, op *lOp) {
 func runC14(c *Ctx, variant int) {
 	w := c.W
 	if variant < 0 {
-		w.EnableFaults(sim.FEpollPermute, sim.FEpollTruncate)
+		w.EnableFaults(sim.FEpollPermute, sim.FEpollTruncate, sim.FShortRead, sim.FShortWrite)
 		if w.Chance(1, 8) {
 			w.K.FdBase = 4090 + w.Choose(10)
 		}
